@@ -262,7 +262,7 @@ Definition step (s : st) (l : label) : option st :=
   | LLogEnq id => if memn id (lenq s) then None else Some (w_log (w_lenq s (lenq s ++ [id])) (EEnq id))
   | LLogPClose g => if (g <? ngen s) && negb (memn g (lpc s)) then Some (w_log (w_lpc s (lpc s ++ [g])) (EPeerClose g)) else None
   | LLogObs g => if closedF s && is_cur s g then Some (w_log s (EObsClosed g)) else None
-  | LLogSrv g id => if (g <? ngen s) && memn id (got (gens s g))
+  | LLogSrv g id => if (g <? ngen s) && memn id (got (gens s g)) && negb (memp g id (lsrv s))
                     then Some (w_log (w_lsrv s (lsrv s ++ [(g, id)])) (ESrv g id)) else None
   | LLogReply id => if mem2 id (lsrv s) then Some (w_log s (EReply id)) else None
   | LLogFail id => if memn id (lenq s) then Some (w_log s (EFail id)) else None
@@ -312,7 +312,7 @@ Definition chk_step (k : chk) (e : c11_event) : option chk :=
       if memn id (k_enq k) && negb (memp g id (k_late k)) && (negb stale || memn g (k_pclosed k))
       then Some (mkChk (k_dialed k) (k_pclosed k) (k_obs k) (k_enq k) (k_late k) (k_writes k ++ [(g, id)]) (k_srvs k)) else None
   | ESrv g id =>
-      if memp g id (k_writes k)
+      if memp g id (k_writes k) && negb (mem2 id (k_srvs k))
       then Some (mkChk (k_dialed k) (k_pclosed k) (k_obs k) (k_enq k) (k_late k) (k_writes k) (k_srvs k ++ [(g, id)])) else None
   | EPeerClose g =>
       if memn g (k_pclosed k) then None
